@@ -163,8 +163,5 @@ pub fn replay(r: &Value) -> bool {
         _ => check_key::<F1024>(seed, gso, &mut rep),
     }
     println!("stats {:?}", rep.stats);
-    for v in &rep.violations {
-        println!("{}: {}", v.signature, v.detail);
-    }
-    rep.violations.is_empty()
+    crate::util::print_replay(&rep)
 }
